@@ -18,6 +18,17 @@ def vdot(x, y):
     return tot
 
 
+def ptrace(dense, dims, sites, is_dm):
+    """Tr over everything but the physical legs of `sites` of |psi><psi| (vector) or A A^+ (operator A[(p..), (a..)]); exact on Poly entries"""
+    k = len(sites)
+    t = np.asarray(dense, dtype=object if np.asarray(dense).dtype == object else None).reshape(list(dims) + (list(dims) if is_dm else []))
+    m = np.moveaxis(t, sites, list(range(k))).reshape(int(np.prod([dims[s] for s in sites])), -1)
+    if m.dtype == object:
+        mc = np.vectorize(lambda x: Poly.coerce(x).conjugate(), otypes=[object])(m)
+        return m.dot(mc.T)
+    return m @ m.conj().T
+
+
 def conv(e):
     """documented return convention of expectation(): real part when the imaginary part vanishes"""
     e = Poly.coerce(e)
@@ -98,4 +109,39 @@ def prove(run):
                 except Exception as e:
                     decide_true(run, f"post:Mps.expectations:total{lst}@{tag}", "Mps.expectations", False,
                                 f"expectations(list, self_conj, opt=True) raised {type(e).__name__}: {e}", dict(case, list=lst))
+            # ---- reduced density matrices: polynomial identity with the partial trace of |psi><psi| (pure state) / A A^+ (density-operator form)
+            from renormalizer.mps import MpDm
+            Hn = Mpo(model, terms)
+            objs = [("Mps", a, atc, False)]
+            if gauge == "fresh":
+                A0 = Hn.apply(MpDm.from_mps(a0))
+                if n >= 2:
+                    A0 = mpos[1].apply(A0)
+                objs.append(("MpDm", SH.symbolic_state(A0, vf), S.complexify(A0, rng), True))
+            for kind, obj, objc, is_dm in objs:
+                natd = S.dense(objc)
+
+                def nat_rdm(sites, objc=objc, natd=natd, is_dm=is_dm):
+                    got = objc.calc_1site_rdm()[sites[0]] if len(sites) == 1 else objc.calc_2site_rdm()[tuple(sites)]
+                    ref = ptrace(np.asarray(natd), dims, sites, is_dm)
+                    return np.asarray(got).reshape(ref.shape), ref
+                with SH.symbolic_mode():
+                    dv = S.dense(obj)
+                    try:
+                        r1 = obj.calc_1site_rdm()
+                        r2 = obj.calc_2site_rdm() if n >= 2 else {}
+                    except Exception as e:
+                        decide_true(run, f"post:{kind}.calc_rdm:total@{tag}", "Mps.calc_1site_rdm", False, f"raised {type(e).__name__}: {e}", case)
+                        continue
+                    for i in range(n):
+                        decide(run, f"post:{kind}.calc_1site_rdm:partial_trace[{i}]@{tag}", "Mps.calc_1site_rdm", np.asarray(r1[i], dtype=object),
+                               ptrace(dv, dims, [i], is_dm), case, fields={"site": i, "density_operator": is_dm},
+                               numeric_replay=native_pair((lambda i_: lambda: nat_rdm([i_]))(i), how))
+                    for (i, j) in sorted(r2):
+                        ref = ptrace(dv, dims, [i, j], is_dm)
+                        decide(run, f"post:{kind}.calc_2site_rdm:partial_trace[{i},{j}]@{tag}", "Mps.calc_2site_rdm", np.asarray(r2[(i, j)], dtype=object).reshape(ref.shape),
+                               ref, case, fields={"sites": [i, j], "density_operator": is_dm},
+                               numeric_replay=native_pair((lambda i_, j_: lambda: nat_rdm([i_, j_]))(i, j), how))
+                    decide_true(run, f"post:{kind}.calc_2site_rdm:all_pairs@{tag}", "Mps.calc_2site_rdm", set(r2) == {(i, j) for i in range(n) for j in range(i + 1, n)},
+                                f"keys {sorted(r2)}", case)
     run.extra.setdefault("symx", {})["C07"] = {"operator_lists_decided": nlists, "shims": SH.SHIMS}
